@@ -18,9 +18,11 @@ over `TestResult` / `TextTestResult` leaves and **every** call history (no bound
 * `C04_stop_reaches`           : `stop()` on any node sets `shouldStop` on every result below it and on the node
 * `C04_stop_sticky`            : `shouldStop` stays set under every call but `startTestRun`
 * `C04_not_earlier`            : `shouldStop` only after `stop()` or after a bad outcome with fail-fast set somewhere
+* `C04_leaf_failfast_kept`, `C04_leaf_stops` : per result: its own `failfast` survives every `startTestRun` on any wrapper; it stops
+                                 exactly by its own setting (or a fail-fast decorator above it)
 * `C04_exit`                   : exit status and summary of `testtools.run` for a module of test cases, with and without `-f`
-* `C04_finding_tfr`, `C04_finding_nested` : the model reproduces the two known findings
-* `C04_failfast_kept_partial`  : wrapping leaves the `failfast` of every result alone (D14), outside finding `nestedMultiFailfast`
+* `C04_finding_tfr`            : the model reproduces the known finding
+* `C04_failfast_kept`          : wrapping leaves the `failfast` of every result alone (D14), at any nesting depth
 Not proved (correspondence only): `TextTestResult` behind `ThreadsafeForwardingResult`; everything through `ExtendedToStreamDecorator` + `StreamFailFast`.
 -/
 namespace TTV.Props.C04
@@ -241,18 +243,8 @@ theorem abs_init : ∀ (s : Shape), ownLeaves s = true → s.noStream = true →
   | .multi cs, h, hn => by
       have ho : ownLeavesL cs = true := by simpa [ownLeaves] using h
       have hn' : Shape.noStreamL cs = true := by simpa [Shape.noStream] using hn
-      have hk := ok_of_ownL cs ho hn'
       simp only [leaves, init]
-      have e1 := act_restoreL badAction cs hk
-      have e2 := act_stepL badAction cs hk
-      rw [show badAction.abs = badAbs from rfl] at e1 e2
-      rw [e1, e2, e2, e2]
-      have key : ∀ (L : List (Option Bool)) (b : Bool), (∀ a ∈ L, a = some false) →
-          ∀ a ∈ L.map (badAction.act (.setFailfast b)), a = some false := by
-        intro L b hL a ha
-        obtain ⟨x, hx, rfl⟩ := List.mem_map.mp ha
-        rw [hL x hx]; rfl
-      exact key _ _ (key _ _ (key _ _ (abs_initL cs ho hn')))
+      exact abs_initL cs ho hn'
 theorem abs_initL : ∀ (ss : List Shape), ownLeavesL ss = true → Shape.noStreamL ss = true →
     ∀ a ∈ (leavesL ss (initL ss)).map badAbs, a = some false
   | [], _, _ => by simp [leavesL]
@@ -606,20 +598,8 @@ theorem textAbs_init : ∀ (s : Shape), ownLeaves s = true → s.noStream = true
       have ho : ownLeavesL cs = true := by simpa [ownLeaves] using h
       have hn' : Shape.noStreamL cs = true := by simpa [Shape.noStream] using hn
       have ht' : Shape.hasTfrL cs = false := by simpa [Shape.hasTfr] using ht
-      have hk := okText_of_ownL cs ho hn' ht'
       simp only [leaves, init]
-      have e1 := act_restoreL textAction cs hk
-      have e2 := act_stepL textAction cs hk
-      rw [show textAction.abs = textAbs from rfl] at e1 e2
-      rw [e1, e2, e2, e2]
-      have key : ∀ (L : List (Option (Bool × Tally × List Out))) (b : Bool),
-          (∀ a ∈ L, a = none ∨ a = some (false, {}, [])) →
-          ∀ a ∈ L.map (textAction.act (.setFailfast b)), a = none ∨ a = some (false, {}, []) := by
-        intro L b hL a ha
-        obtain ⟨x, hx, rfl⟩ := List.mem_map.mp ha
-        rw [textAction.neutral (.setFailfast b) rfl]
-        exact hL x hx
-      exact key _ _ (key _ _ (key _ _ (textAbs_initL cs ho hn' ht')))
+      exact textAbs_initL cs ho hn' ht'
 theorem textAbs_initL : ∀ (ss : List Shape), ownLeavesL ss = true → Shape.noStreamL ss = true → Shape.hasTfrL ss = false →
     ∀ a ∈ (leavesL ss (initL ss)).map textAbs, a = none ∨ a = some (false, {}, [])
   | [], _, _, _ => by simp [leavesL]
@@ -1180,17 +1160,6 @@ theorem ffree_steps : ∀ (s : Shape), s.noStream = true → ∀ (cs : List Call
       have h1 := ffreeL_step ss hn' c hcc inner h
       cases c with
       | progress => exact h
-      | startTestRun =>
-        simp only [step]
-        have hs := ffreeL_read ss inner h
-        have a1 := ffreeL_step ss hn' (.setFailfast false) rfl inner h
-        have hd : (failfastL ss inner).headD false = false := by
-          cases hl : failfastL ss inner with
-          | nil => rfl
-          | cons b bs => rw [hl] at hs; simpa using hs b (by simp)
-        have a2 := ffreeL_step ss hn' (.setFailfast ((failfastL ss inner).headD false)) (by rw [hd]; rfl) _ a1
-        have a3 := ffreeL_restore ss hn' _ (failfastL ss inner) hs a2
-        exact ffreeL_step ss hn' .startTestRun rfl _ a3
       | _ => exact h1
   | .e2s _, hn, _ :: _, _, _, _ => by simp [Shape.noStream] at hn
 theorem ffreeL_step : ∀ (ss : List Shape), Shape.noStreamL ss = true → ∀ (c : Call), notFFTrue c = true →
@@ -1200,17 +1169,6 @@ theorem ffreeL_step : ∀ (ss : List Shape), Shape.noStreamL ss = true → ∀ (
       simp only [Shape.noStreamL, Bool.and_eq_true] at hn
       have := ffree_steps s hn.1 [c] (by simpa using hc) x h.1
       exact ⟨by simpa using this, ffreeL_step ss hn.2 c hc xs h.2⟩
-theorem ffreeL_restore : ∀ (ss : List Shape), Shape.noStreamL ss = true → ∀ (st : StL ss) (saved : List Bool),
-    (∀ b ∈ saved, b = false) → FFreeL ss st → FFreeL ss (restoreL ss st saved)
-  | [], _, _, _, _, _ => trivial
-  | s :: ss, hn, (x, xs), saved, hs, h => by
-      simp only [Shape.noStreamL, Bool.and_eq_true] at hn
-      have hd : saved.headD false = false := by
-        cases saved with
-        | nil => rfl
-        | cons b bs => simpa using hs b (by simp)
-      have := ffree_steps s hn.1 [.setFailfast (saved.headD false)] (by rw [hd]; simp [notFFTrue]) x h.1
-      exact ⟨by simpa using this, ffreeL_restore ss hn.2 xs saved.tail (fun b hb => hs b (List.mem_of_mem_tail hb)) h.2⟩
 end
 
 def CalmL (ss : List Shape) (st : StL ss) : Prop := ∀ l ∈ leavesL ss st, LeafSt.shouldStop l = false
@@ -1382,15 +1340,8 @@ theorem calm_step : ∀ (s : Shape), s.noStream = true → ∀ (c : Call), c ≠
   | .multi ss, hn, c, hc, (own, inner), hs, h => by
       have hn' : Shape.noStreamL ss = true := by simpa [Shape.noStream] using hn
       show CalmL ss (step (.multi ss) (own, inner) c).2
-      have hq : ∀ b, Call.setFailfast b ≠ Call.stop ∧ isBadAdd (Call.setFailfast b) = false := fun b => ⟨by simp, rfl⟩
       cases c with
       | progress => exact h
-      | startTestRun =>
-        simp only [step]
-        have a1 := calmL_step ss hn' _ (hq false).1 inner (.inr (hq false).2) h
-        have a2 := calmL_step ss hn' _ (hq ((failfastL ss inner).headD false)).1 _ (.inr (hq _).2) a1
-        have a3 := calmL_restore ss hn' _ (failfastL ss inner) a2
-        exact calmL_step ss hn' .startTestRun (by simp) _ (.inr rfl) a3
       | stop => exact absurd rfl hc
       | _ =>
         refine calmL_step ss hn' _ hc inner ?_ h
@@ -1409,20 +1360,6 @@ theorem calmL_step : ∀ (ss : List Shape), Shape.noStreamL ss = true → ∀ (c
       have b := calmL_step ss hn.2 c hc xs (hs.imp (fun p => ⟨p.1.2, p.2⟩) id) hxs
       intro l hl
       simp only [leavesL, stepL, List.mem_append] at hl
-      rcases hl with hl | hl
-      · exact a l hl
-      · exact b l hl
-theorem calmL_restore : ∀ (ss : List Shape), Shape.noStreamL ss = true → ∀ (st : StL ss) (saved : List Bool),
-    CalmL ss st → CalmL ss (restoreL ss st saved)
-  | [], _, _, _, _ => by intro l hl; simp [leavesL] at hl
-  | s :: ss, hn, (x, xs), saved, h => by
-      simp only [Shape.noStreamL, Bool.and_eq_true] at hn
-      have hx : Calm s x := fun l hl => h l (by simp [leavesL, hl])
-      have hxs : CalmL ss xs := fun l hl => h l (by simp [leavesL, hl])
-      have a := calm_step s hn.1 (.setFailfast (saved.headD false)) (by simp) x (.inr (by simp [isBadAdd])) hx
-      have b := calmL_restore ss hn.2 xs saved.tail hxs
-      intro l hl
-      simp only [leavesL, restoreL, List.mem_append] at hl
       rcases hl with hl | hl
       · exact a l hl
       · exact b l hl
@@ -1478,12 +1415,7 @@ theorem calm_init : ∀ (s : Shape), s.noStream = true → Calm s (init s)
       have hn' : Shape.noStreamL ss = true := by simpa [Shape.noStream] using hn
       show CalmL ss (init (.multi ss)).2
       simp only [init]
-      have hq : ∀ b, Call.setFailfast b ≠ Call.stop := fun b => by simp
-      have a0 := calmL_init ss hn'
-      have a1 := calmL_step ss hn' _ (hq false) _ (.inr rfl) a0
-      have a2 := calmL_step ss hn' _ (hq false) _ (.inr rfl) a1
-      have a3 := calmL_step ss hn' _ (hq false) _ (.inr rfl) a2
-      exact calmL_restore ss hn' _ _ a3
+      exact calmL_init ss hn'
 theorem calmL_init : ∀ (ss : List Shape), Shape.noStreamL ss = true → CalmL ss (initL ss)
   | [], _ => by intro l hl; simp [leavesL] at hl
   | s :: ss, hn => by
@@ -1510,12 +1442,7 @@ theorem ffree_init : ∀ (s : Shape), s.noStream = true → (leafParams s).any i
       have hn' : Shape.noStreamL ss = true := by simpa [Shape.noStream] using hn
       show FFreeL ss (init (.multi ss)).2
       simp only [init]
-      have a0 := ffreeL_init ss hn' (by simpa [leafParams] using h)
-      have hs := ffreeL_read ss _ a0
-      have a1 := ffreeL_step ss hn' (.setFailfast false) rfl _ a0
-      have a2 := ffreeL_step ss hn' (.setFailfast false) rfl _ a1
-      have a3 := ffreeL_step ss hn' (.setFailfast false) rfl _ a2
-      exact ffreeL_restore ss hn' _ _ hs a3
+      exact ffreeL_init ss hn' (by simpa [leafParams] using h)
 theorem ffreeL_init : ∀ (ss : List Shape), Shape.noStreamL ss = true → (leafParamsL ss).any id = false →
     FFreeL ss (initL ss)
   | [], _, _ => trivial
@@ -1594,235 +1521,531 @@ theorem C04_not_earlier (s : Shape) (ho : ownLeaves s = true) (hn : s.noStream =
   notEarlier_states s ho hn h (init s) _ _ (fun hf => ffree_init s hn hf) (fun _ => calm_init s hn)
 
 /-! ### wrapping a result leaves its `failfast` alone -/
-/- assigning `failfast` twice = assigning the second value -/
 mutual
-theorem lastWrite : ∀ (s : Shape) (st : St s) (b1 b2 : Bool),
-    step s (step s st (.setFailfast b1)) (.setFailfast b2) = step s st (.setFailfast b2)
-  | .sink _, _, _, _ => rfl
-  | .tt _, _, _, _ => rfl
-  | .text _, _, _, _ => rfl
-  | .tbt, _, _, _ => rfl
-  | .etod c, (own, inner), b1, b2 => by
-      simp only [step, etodStep]
-      split
-      · simp [lastWrite c inner b1 b2]
-      · rfl
-  | .deco _, _, _, _ => rfl
-  | .tagger _ _ _, _, _, _ => rfl
-  | .tfr _, _, _, _ => rfl
-  | .e2s _, _, _, _ => rfl
-  | .multi cs, (own, inner), b1, b2 => by
-      simp only [step, multiOwn, lastWriteL cs inner b1 b2]
-theorem lastWriteL : ∀ (ss : List Shape) (st : StL ss) (b1 b2 : Bool),
-    stepL ss (stepL ss st (.setFailfast b1)) (.setFailfast b2) = stepL ss st (.setFailfast b2)
-  | [], _, _, _ => rfl
-  | s :: ss, (x, xs), b1, b2 => by simp only [stepL, lastWrite s x b1 b2, lastWriteL ss xs b1 b2]
+theorem kept_init : ∀ (s : Shape), (leaves s (init s)).map LeafSt.failfast = leafParams s
+  | .sink _ => rfl
+  | .tt _ => rfl
+  | .text _ => rfl
+  | .tbt => rfl
+  | .etod c => kept_init c
+  | .deco c => kept_init c
+  | .tagger _ _ c => kept_init c
+  | .tfr c => kept_init c
+  | .e2s c => kept_init c
+  | .multi cs => kept_initL cs
+theorem kept_initL : ∀ (ss : List Shape), (leavesL ss (initL ss)).map LeafSt.failfast = leafParamsL ss
+  | [] => rfl
+  | s :: ss => by simp only [leavesL, initL, leafParamsL, List.map_append, kept_init s, kept_initL ss]
 end
 
-def leafFFs (s : Shape) (st : St s) : List Bool := (leaves s st).map LeafSt.failfast
-def leafFFsL (ss : List Shape) (st : StL ss) : List Bool := (leavesL ss st).map LeafSt.failfast
+/-- **C04 (wrapping keeps fail-fast).**  Building any graph of adapters over results — at any nesting depth of
+`MultiTestResult`s — leaves the `failfast` each result was constructed with unchanged (D14). -/
+theorem C04_failfast_kept (s : Shape) : (leaves s (init s)).map LeafSt.failfast = leafParams s := kept_init s
 
+/-! ### every result by itself -/
+def upd (b : Bool) : Call → Bool
+  | .startTestRun => false
+  | .add k _ _ => b || Kind.bad k
+  | _ => b
+
+def noSF : Call → Bool
+  | .setFailfast _ => false
+  | _ => true
+
+/- every result has the `failfast` it was built with and, if it is set and a bad outcome was reported since the
+last `startTestRun` (`b`), has stopped; no wrapper has a `failfast` of its own -/
 mutual
-theorem leafFFs_len : ∀ (s : Shape) (st : St s), (leafFFs s st).length = (leafParams s).length
-  | .sink _, _ => rfl
-  | .tt _, _ => rfl
-  | .text _, _ => rfl
-  | .tbt, _ => rfl
-  | .etod c, (_, inner) => leafFFs_len c inner
-  | .deco c, st => leafFFs_len c st
-  | .tagger _ _ c, st => leafFFs_len c st
-  | .tfr c, (_, inner) => leafFFs_len c inner
-  | .e2s c, (_, inner) => leafFFs_len c inner
-  | .multi cs, (_, inner) => leafFFsL_len cs inner
-theorem leafFFsL_len : ∀ (ss : List Shape) (st : StL ss), (leafFFsL ss st).length = (leafParamsL ss).length
-  | [], _ => rfl
-  | s :: ss, (x, xs) => by
-      have a := leafFFs_len s x
-      have b := leafFFsL_len ss xs
-      simp only [leafFFs, leafFFsL, leavesL, leafParamsL, List.map_append, List.length_append] at a b ⊢
-      rw [a, b]
+def Inv1 (b : Bool) : (s : Shape) → St s → Prop
+  | .tt ff, st => st.failfast = ff ∧ (b = true → ff = true → st.shouldStop = true)
+  | .text ff, st => st.tt.failfast = ff ∧ (b = true → ff = true → st.tt.shouldStop = true)
+  | .sink _, _ => True
+  | .tbt, _ => True
+  | .etod c, (own, inner) => own.failfast = false ∧ Inv1 b c inner
+  | .deco c, st => Inv1 b c st
+  | .tagger _ _ c, st => Inv1 b c st
+  | .tfr c, (own, inner) => own.tt.failfast = false ∧ Inv1 b c inner
+  | .multi cs, (_, inner) => Inv1L b cs inner
+  | .e2s _, _ => True
+def Inv1L (b : Bool) : (cs : List Shape) → StL cs → Prop
+  | [], _ => True
+  | c :: cs, (x, xs) => Inv1 b c x ∧ Inv1L b cs xs
 end
 
-/- assigning `b` where every leaf it reaches already has `b`: no leaf changes; and it reads back as `b` -/
+theorem main_noSF (caps : Caps) (c : Call) (hc : noSF c = true) : ∀ x ∈ etodMain caps c, noSF x = true := by
+  cases c <;> simp [etodMain, Spec.C08.degradeCall, noSF] at hc ⊢ <;> (try split) <;> simp_all [noSF]
+
+theorem upd_main (caps : Caps) (hr : caps.startRun = true) (c : Call) (b : Bool) :
+    (etodMain caps c).foldl upd b = upd b c := by
+  cases c with
+  | add k t a =>
+    have hk : Kind.bad (Spec.C08.degradeKind caps k) = Kind.bad k := by
+      cases k <;> simp only [Spec.C08.degradeKind] <;> (try split) <;> rfl
+    simp [etodMain, Spec.C08.degradeCall, upd, hk]
+  | startTestRun => simp [etodMain, hr, upd]
+  | stopTestRun => simp [etodMain, hr, upd]
+  | _ => simp only [etodMain] <;> (try split) <;> simp [upd]
+
+theorem upd_stops (k : Nat) (b : Bool) : (List.replicate k Call.stop).foldl upd b = b := by
+  induction k with
+  | zero => rfl
+  | succ k ih => simp [List.replicate_succ, upd, ih]
+
+theorem tfrBlock_noSF (own : TfrOwn) (k : Kind) (t : Nat) (a : Arg) : ∀ x ∈ tfrBlock own k t a, noSF x = true := by
+  have : (tfrBlock own k t a).all noSF = true := by
+    cases h1 : anyTags own.globalTags <;> cases h2 : anyTags own.testTags <;> simp [tfrBlock, h1, h2, noSF]
+  exact fun x hx => List.all_eq_true.mp this x hx
+
+theorem upd_tfrBlock (own : TfrOwn) (k : Kind) (t : Nat) (a : Arg) (b : Bool) :
+    (tfrBlock own k t a).foldl upd b = upd b (.add k t a) := by
+  cases h1 : anyTags own.globalTags <;> cases h2 : anyTags own.testTags <;> simp [tfrBlock, h1, h2, upd]
+
+theorem tt_inv1 (ff : Bool) (st : TT) (c : Call) (hc : noSF c = true) (b : Bool)
+    (h : st.failfast = ff ∧ (b = true → ff = true → st.shouldStop = true)) :
+    (ttStep st c).failfast = ff ∧ (upd b c = true → ff = true → (ttStep st c).shouldStop = true) := by
+  obtain ⟨h1, h2⟩ := h
+  cases c with
+  | add k t a =>
+    cases k <;> simp only [ttStep, upd, Kind.bad, Call.logged, Bool.or_false, Bool.or_true] <;>
+      refine ⟨h1, fun hb hf => ?_⟩ <;> simp_all
+  | setFailfast x => simp [noSF] at hc
+  | startTestRun => exact ⟨by simp [ttStep, TT.reset, Call.logged, h1], fun hb => by simp [upd] at hb⟩
+  | _ => exact ⟨by simp [ttStep, Call.logged, h1], fun hb hf => by simpa [ttStep, Call.logged, upd] using h2 (by simpa [upd] using hb) hf⟩
+
 mutual
-theorem setSame : ∀ (s : Shape), s.wf = true → ownLeaves s = true → s.noStream = true → ∀ (st : St s) (b : Bool),
-    leafFFs s st = leafParams s → (ffReach s).all (· == b) = true →
-    leafFFs s (step s st (.setFailfast b)) = leafParams s ∧
-    ((caps s).failfast = true → failfastOf s (step s st (.setFailfast b)) = b)
-  | .sink _, _, ho, _, _, _, _, _ => by simp [ownLeaves] at ho
-  | .tbt, _, ho, _, _, _, _, _ => by simp [ownLeaves] at ho
-  | .tt ff, _, _, _, st, b, hl, hr => by
-      simp only [ffReach, List.all_cons, List.all_nil, Bool.and_true, beq_iff_eq] at hr
-      subst hr
-      exact ⟨by simp [leafFFs, leaves, step, ttStep, LeafSt.failfast, leafParams, Call.logged],
-             fun _ => by simp [failfastOf, step, ttStep, Call.logged]⟩
-  | .text ff, _, _, _, st, b, hl, hr => by
-      simp only [ffReach, List.all_cons, List.all_nil, Bool.and_true, beq_iff_eq] at hr
-      subst hr
-      exact ⟨by simp [leafFFs, leaves, step, textStep, ttStep, LeafSt.failfast, leafParams, Call.logged],
-             fun _ => by simp [failfastOf, step, textStep, ttStep, Call.logged]⟩
-  | .etod c, hw, ho, hn, (own, inner), b, hl, hr => by
-      have ho' : ownLeaves c = true := by simpa [ownLeaves] using ho
-      have hn' : c.noStream = true := by simpa [Shape.noStream] using hn
-      have hw' : c.wf = true := by cases c <;> simp_all [Shape.wf, ownLeaves]
-      by_cases hc : (caps c).failfast = true
-      · have hr' : (ffReach c).all (· == b) = true := by simpa [ffReach, hc] using hr
-        obtain ⟨h1, h2⟩ := setSame c hw' ho' hn' inner b hl hr'
-        refine ⟨?_, fun _ => ?_⟩
-        · simpa [leafFFs, leaves, step, etodStep, hc, leafParams] using h1
-        · simpa [failfastOf, step, etodStep, hc] using h2 hc
-      · have hc' : (caps c).failfast = false := by simpa using hc
-        refine ⟨?_, fun _ => ?_⟩
-        · simpa [leafFFs, leaves, step, etodStep, hc', leafParams] using hl
-        · simp [failfastOf, step, etodStep, hc']
-  | .deco c, _, _, _, st, b, hl, _ => ⟨hl, fun h => by simp [caps] at h⟩
-  | .tagger _ _ c, _, _, _, st, b, hl, _ => ⟨hl, fun h => by simp [caps] at h⟩
-  | .tfr c, _, _, _, (own, inner), b, hl, _ =>
-      ⟨hl, fun _ => by simp [failfastOf, step, tfrStep, ttStep, Call.logged]⟩
-  | .e2s _, _, _, hn, _, _, _, _ => by simp [Shape.noStream] at hn
-  | .multi cs, hw, ho, hn, (own, inner), b, hl, hr => by
-      have ho' : ownLeavesL cs = true := by simpa [ownLeaves] using ho
-      have hn' : Shape.noStreamL cs = true := by simpa [Shape.noStream] using hn
-      have hw' : Shape.wfL cs = true ∧ cs ≠ [] := by
-        cases cs with
-        | nil => simp [Shape.wf] at hw
-        | cons d ds => exact ⟨by simpa [Shape.wf] using hw, by simp⟩
-      obtain ⟨h1, h2⟩ := setSameL cs hw'.1 ho' hn' inner b hl (by simpa [ffReach] using hr)
-      refine ⟨by simpa [leafFFs, leafFFsL, leaves, step, multiOwn, leafParams] using h1, fun _ => ?_⟩
-      simp only [failfastOf, step, multiOwn]
-      exact h2 hw'.2
-theorem setSameL : ∀ (ss : List Shape), Shape.wfL ss = true → ownLeavesL ss = true → Shape.noStreamL ss = true →
-    ∀ (st : StL ss) (b : Bool), leafFFsL ss st = leafParamsL ss → (ffReachL ss).all (· == b) = true →
-    leafFFsL ss (stepL ss st (.setFailfast b)) = leafParamsL ss ∧
-    (ss ≠ [] → (failfastL ss (stepL ss st (.setFailfast b))).headD false = b)
-  | [], _, _, _, _, _, _, _ => ⟨rfl, fun h => absurd rfl h⟩
-  | s :: ss, hw, ho, hn, (x, xs), b, hl, hr => by
+theorem inv1_steps : ∀ (s : Shape), ownLeaves s = true → s.noStream = true → ∀ (cs : List Call),
+    (∀ x ∈ cs, noSF x = true) → ∀ (st : St s) (b : Bool), Inv1 b s st → Inv1 (cs.foldl upd b) s (cs.foldl (step s) st)
+  | _, _, _, [], _, _, _, h => h
+  | .sink _, ho, _, _ :: _, _, _, _, _ => by simp [ownLeaves] at ho
+  | .tbt, ho, _, _ :: _, _, _, _, _ => by simp [ownLeaves] at ho
+  | .tt ff, ho, hn, c :: cs, hc, st, b, h => by
+      simp only [List.foldl_cons]
+      exact inv1_steps (.tt ff) ho hn cs (fun x hx => hc x (List.mem_cons_of_mem _ hx)) _ _
+        (tt_inv1 ff st c (hc c List.mem_cons_self) b h)
+  | .text ff, ho, hn, c :: cs, hc, st, b, h => by
+      simp only [List.foldl_cons]
+      refine inv1_steps (.text ff) ho hn cs (fun x hx => hc x (List.mem_cons_of_mem _ hx)) _ _ ?_
+      have := tt_inv1 ff st.tt c (hc c List.mem_cons_self) b h
+      cases c <;> simpa [Inv1, step, textStep] using this
+  | .etod ch, ho, hn, c :: cs, hc, (own, inner), b, h => by
+      simp only [List.foldl_cons]
+      have ho' : ownLeaves ch = true := by simpa [ownLeaves] using ho
+      have hn' : ch.noStream = true := by simpa [Shape.noStream] using hn
+      have hr : (caps ch).startRun = true := by cases ch <;> simp_all [ownLeaves, caps]
+      have hcc := hc c List.mem_cons_self
+      refine inv1_steps (.etod ch) ho hn cs (fun x hx => hc x (List.mem_cons_of_mem _ hx)) _ _ ?_
+      obtain ⟨k, hk⟩ := etodStep_emits ⟨caps ch, step ch, failfastOf ch⟩ own inner c
+      have h2 : (step (.etod ch) (own, inner) c).2
+          = (etodMain (caps ch) c ++ List.replicate k Call.stop).foldl (step ch) inner := hk
+      have h1 := etodStep_ownff ⟨caps ch, step ch, failfastOf ch⟩ own inner c
+      refine ⟨?_, ?_⟩
+      · show (etodStep ⟨caps ch, step ch, failfastOf ch⟩ own inner c).1.failfast = false
+        rw [h1]
+        cases c with
+        | setFailfast x => simp [noSF] at hcc
+        | _ => exact h.1
+      · show Inv1 (upd b c) ch (step (.etod ch) (own, inner) c).2
+        rw [h2]
+        have := inv1_steps ch ho' hn' (etodMain (caps ch) c ++ List.replicate k Call.stop) (by
+          intro x hx
+          rcases List.mem_append.mp hx with hx | hx
+          · exact main_noSF _ c hcc x hx
+          · rw [List.eq_of_mem_replicate hx]; rfl) inner b h.2
+        rwa [List.foldl_append, upd_main _ hr, upd_stops] at this
+  | .deco ch, ho, hn, c :: cs, hc, st, b, h => by
+      simp only [List.foldl_cons]
+      have ho' : ownLeaves ch = true := by simpa [ownLeaves] using ho
+      have hn' : ch.noStream = true := by simpa [Shape.noStream] using hn
+      have hcc := hc c List.mem_cons_self
+      refine inv1_steps (.deco ch) ho hn cs (fun x hx => hc x (List.mem_cons_of_mem _ hx)) _ _ ?_
+      have h1 := inv1_steps ch ho' hn' [c] (by simpa using hcc) st b h
+      cases c with
+      | done => exact h
+      | setFailfast x => simp [noSF] at hcc
+      | _ => exact h1
+  | .tagger n g ch, ho, hn, c :: cs, hc, st, b, h => by
+      simp only [List.foldl_cons]
+      have ho' : ownLeaves ch = true := by simpa [ownLeaves] using ho
+      have hn' : ch.noStream = true := by simpa [Shape.noStream] using hn
+      have hcc := hc c List.mem_cons_self
+      refine inv1_steps (.tagger n g ch) ho hn cs (fun x hx => hc x (List.mem_cons_of_mem _ hx)) _ _ ?_
+      have h1 := inv1_steps ch ho' hn' [c] (by simpa using hcc) st b h
+      cases c with
+      | startTest t => exact inv1_steps ch ho' hn' [.startTest t, .tags n g] (by simp [noSF]) st b h
+      | done => exact h
+      | setFailfast x => simp [noSF] at hcc
+      | _ => exact h1
+  | .tfr ch, ho, hn, c :: cs, hc, (own, inner), b, h => by
+      simp only [List.foldl_cons]
+      have ho' : ownLeaves ch = true := by simpa [ownLeaves] using ho
+      have hn' : ch.noStream = true := by simpa [Shape.noStream] using hn
+      have hcc := hc c List.mem_cons_self
+      refine inv1_steps (.tfr ch) ho hn cs (fun x hx => hc x (List.mem_cons_of_mem _ hx)) _ _ ?_
+      have one : ∀ c', noSF c' = true → Inv1 (upd b c') ch (step ch inner c') := by
+        intro c' h'
+        have := inv1_steps ch ho' hn' [c'] (by simpa using h') inner b h.2
+        simpa using this
+      cases c with
+      | add k t a =>
+        refine ⟨h.1, ?_⟩
+        have := inv1_steps ch ho' hn' _ (tfrBlock_noSF own k t a) inner b h.2
+        rwa [upd_tfrBlock] at this
+      | startTestRun => exact ⟨by simp [step, tfrStep, ttStep, TT.reset, Call.logged, h.1], one _ rfl⟩
+      | stopTestRun => exact ⟨h.1, one _ rfl⟩
+      | stop => exact ⟨h.1, one _ rfl⟩
+      | done => exact ⟨h.1, one _ rfl⟩
+      | startTest t => exact ⟨by simp [step, tfrStep, ttStep, Call.logged, h.1], h.2⟩
+      | stopTest t => exact ⟨by simp [step, tfrStep, ttStep, Call.logged, h.1], h.2⟩
+      | tags n g => simp only [step, tfrStep]; split <;> exact ⟨by simp [ttStep, Call.logged, h.1], h.2⟩
+      | time d => exact ⟨by simp [step, tfrStep, ttStep, Call.logged, h.1], h.2⟩
+      | setFailfast x => simp [noSF] at hcc
+      | progress => exact h
+  | .multi ss, ho, hn, c :: cs, hc, (own, inner), b, h => by
+      simp only [List.foldl_cons]
+      have ho' : ownLeavesL ss = true := by simpa [ownLeaves] using ho
+      have hn' : Shape.noStreamL ss = true := by simpa [Shape.noStream] using hn
+      have hcc := hc c List.mem_cons_self
+      refine inv1_steps (.multi ss) ho hn cs (fun x hx => hc x (List.mem_cons_of_mem _ hx)) _ _ ?_
+      have h1 := inv1L_step ss ho' hn' c hcc inner b h
+      cases c with
+      | progress => exact h
+      | _ => exact h1
+  | .e2s _, _, hn, _ :: _, _, _, _, _ => by simp [Shape.noStream] at hn
+theorem inv1L_step : ∀ (ss : List Shape), ownLeavesL ss = true → Shape.noStreamL ss = true → ∀ (c : Call),
+    noSF c = true → ∀ (st : StL ss) (b : Bool), Inv1L b ss st → Inv1L (upd b c) ss (stepL ss st c)
+  | [], _, _, _, _, _, _, _ => trivial
+  | s :: ss, ho, hn, c, hc, (x, xs), b, h => by
       simp only [ownLeavesL, Bool.and_eq_true] at ho
       simp only [Shape.noStreamL, Bool.and_eq_true] at hn
-      simp only [ffReachL, List.all_append, Bool.and_eq_true] at hr
-      cases s with
-      | etod e =>
-        simp only [Shape.wfL, Bool.and_eq_true] at hw
-        have hlen := leafFFs_len (.etod e) x
-        have hsplit : leafFFs (.etod e) x = leafParams (.etod e) ∧ leafFFsL ss xs = leafParamsL ss := by
-          simp only [leafFFsL, leavesL, leafParamsL, List.map_append] at hl
-          exact List.append_inj hl (by simpa [leafFFs] using hlen)
-        obtain ⟨a1, a2⟩ := setSame (.etod e) hw.1 ho.1 hn.1 x b hsplit.1 hr.1
-        obtain ⟨b1, _⟩ := setSameL ss hw.2 ho.2 hn.2 xs b hsplit.2 hr.2
-        refine ⟨?_, fun _ => ?_⟩
-        · simp only [leafFFsL, leafFFs, leavesL, stepL, leafParamsL, List.map_append] at a1 b1 ⊢
-          rw [a1, b1]
-        · simpa [failfastL, stepL] using a2 rfl
-      | _ => simp [Shape.wfL] at hw
+      have := inv1_steps s ho.1 hn.1 [c] (by simpa using hc) x b h.1
+      exact ⟨by simpa using this, inv1L_step ss ho.2 hn.2 c hc xs b h.2⟩
 end
 
-theorem restore_collapse : ∀ (ss : List Shape) (st : StL ss) (b : Bool) (saved : List Bool),
-    restoreL ss (stepL ss st (.setFailfast b)) saved = restoreL ss st saved
-  | [], _, _, _ => rfl
-  | s :: ss, (x, xs), b, saved => by
-      simp only [stepL, restoreL, lastWrite s x b, restore_collapse ss xs b]
-
-/-- a target whose reachable leaves all carry what the target reads as its own `failfast` -/
-theorem uniform_of : ∀ (c : Shape),
-    (match reachMulti c with
-      | some ds => (ffReachL ds).all (· == ffReadHead ds) = true
-      | none => True) → (ffReach c).all (· == ffRead c) = true
-  | .tt ff, _ => by simp [ffReach, ffRead]
-  | .text ff, _ => by simp [ffReach, ffRead]
-  | .sink _, _ => rfl
-  | .tbt, _ => rfl
-  | .deco _, _ => rfl
-  | .tagger _ _ _, _ => rfl
-  | .tfr _, _ => rfl
-  | .e2s _, _ => rfl
-  | .multi ds, h => by simpa [reachMulti, ffReach, ffRead] using h
-  | .etod x, h => by
-      simp only [ffReach, ffRead]
+mutual
+theorem inv1_read : ∀ (s : Shape), ownLeaves s = true → s.noStream = true → ∀ (st : St s) (b : Bool),
+    Inv1 b s st → failfastOf s st = ffRead s
+  | .sink _, ho, _, _, _, _ => by simp [ownLeaves] at ho
+  | .tbt, ho, _, _, _, _ => by simp [ownLeaves] at ho
+  | .tt ff, _, _, st, b, h => h.1
+  | .text ff, _, _, st, b, h => h.1
+  | .etod c, ho, hn, (own, inner), b, h => by
+      simp only [failfastOf, ffRead]
       split
       · rename_i hc
         simp only [hc, Bool.true_and]
-        exact uniform_of x (by simpa [reachMulti] using h)
-      · rfl
-
-mutual
-theorem kept_init : ∀ (s : Shape), s.wf = true → ownLeaves s = true → s.noStream = true → mixedNested s = false →
-    leafFFs s (init s) = leafParams s ∧ failfastOf s (init s) = ffRead s
-  | .sink _, _, ho, _, _ => by simp [ownLeaves] at ho
-  | .tbt, _, ho, _, _ => by simp [ownLeaves] at ho
-  | .tt ff, _, _, _, _ => ⟨rfl, rfl⟩
-  | .text ff, _, _, _, _ => ⟨rfl, rfl⟩
-  | .etod c, hw, ho, hn, hm => by
-      have ho' : ownLeaves c = true := by simpa [ownLeaves] using ho
-      have hw' : c.wf = true := by cases c <;> simp_all [Shape.wf, ownLeaves]
-      obtain ⟨h1, h2⟩ := kept_init c hw' ho' (by simpa [Shape.noStream] using hn) (by simpa [mixedNested] using hm)
-      refine ⟨h1, ?_⟩
-      simp only [failfastOf, init, ffRead]
-      split
-      · rename_i hc; simp [hc, h2]
-      · rename_i hc; simp [hc]
-  | .deco c, hw, ho, hn, hm =>
-      ⟨(kept_init c (by simpa [Shape.wf] using hw) (by simpa [ownLeaves] using ho) (by simpa [Shape.noStream] using hn)
-        (by simpa [mixedNested] using hm)).1, rfl⟩
-  | .tagger _ _ c, hw, ho, hn, hm =>
-      ⟨(kept_init c (by simpa [Shape.wf] using hw) (by simpa [ownLeaves] using ho) (by simpa [Shape.noStream] using hn)
-        (by simpa [mixedNested] using hm)).1, rfl⟩
-  | .tfr c, hw, ho, hn, hm => by
-      have hw' : c.wf = true := by cases c <;> simp_all [Shape.wf]
-      exact ⟨(kept_init c hw' (by simpa [ownLeaves] using ho) (by simpa [Shape.noStream] using hn)
-        (by simpa [mixedNested] using hm)).1, rfl⟩
-  | .e2s _, _, _, hn, _ => by simp [Shape.noStream] at hn
-  | .multi cs, hw, ho, hn, hm => by
-      have ho' : ownLeavesL cs = true := by simpa [ownLeaves] using ho
-      have hn' : Shape.noStreamL cs = true := by simpa [Shape.noStream] using hn
-      have hw' : Shape.wfL cs = true ∧ cs ≠ [] := by
-        cases cs with
-        | nil => simp [Shape.wf] at hw
-        | cons d ds => exact ⟨by simpa [Shape.wf] using hw, by simp⟩
-      simp only [mixedNested, Bool.or_eq_false_iff, List.any_eq_false] at hm
-      have hu : ∀ c ∈ cs, (ffReach c).all (· == ffRead c) = true := by
-        intro c hc
-        apply uniform_of
-        have := hm.2 c hc
-        cases hr : reachMulti c with
-        | none => trivial
-        | some ds => rw [hr] at this; simpa using this
-      have key := kept_restoreL cs hw'.1 ho' hn' hm.1 (fun c hc => hu c hc)
-      simp only [leafFFs, leaves, init, failfastOf, ffRead, restore_collapse]
-      obtain ⟨k1, k2⟩ := key
-      refine ⟨by simpa [leafFFsL, leafParams] using k1, ?_⟩
+        exact inv1_read c (by simpa [ownLeaves] using ho) (by simpa [Shape.noStream] using hn) inner b h.2
+      · rename_i hc; simp [hc, h.1]
+  | .deco _, _, _, _, _, _ => rfl
+  | .tagger _ _ _, _, _, _, _, _ => rfl
+  | .tfr _, _, _, (own, _), _, h => h.1
+  | .e2s _, _, hn, _, _, _ => by simp [Shape.noStream] at hn
+  | .multi cs, ho, hn, (_, inner), b, h => by
+      simp only [failfastOf, ffRead]
       cases cs with
-      | nil => exact absurd rfl hw'.2
-      | cons d ds => simpa [ffReadHead] using k2
-theorem kept_restoreL : ∀ (ss : List Shape), Shape.wfL ss = true → ownLeavesL ss = true → Shape.noStreamL ss = true →
-    mixedNestedL ss = false → (∀ c ∈ ss, (ffReach c).all (· == ffRead c) = true) →
-    leafFFsL ss (restoreL ss (initL ss) (failfastL ss (initL ss))) = leafParamsL ss ∧
-    (failfastL ss (restoreL ss (initL ss) (failfastL ss (initL ss)))).headD false = ffReadHead ss
-  | [], _, _, _, _, _ => ⟨rfl, rfl⟩
-  | s :: ss, hw, ho, hn, hm, hu => by
-      simp only [ownLeavesL, Bool.and_eq_true] at ho
-      simp only [Shape.noStreamL, Bool.and_eq_true] at hn
-      simp only [mixedNestedL, Bool.or_eq_false_iff] at hm
-      cases s with
-      | etod e =>
-        simp only [Shape.wfL, Bool.and_eq_true] at hw
-        obtain ⟨i1, i2⟩ := kept_init (.etod e) hw.1 ho.1 hn.1 hm.1
-        obtain ⟨r1, _⟩ := kept_restoreL ss hw.2 ho.2 hn.2 hm.2 (fun c hc => hu c (List.mem_cons_of_mem _ hc))
-        have hus := hu (.etod e) List.mem_cons_self
-        obtain ⟨a1, a2⟩ := setSame (.etod e) hw.1 ho.1 hn.1 (init (.etod e)) (ffRead (.etod e)) i1 hus
-        simp only [initL, failfastL, restoreL, List.headD_cons, List.tail_cons, i2]
-        refine ⟨?_, ?_⟩
-        · simp only [leafFFsL, leafFFs, leavesL, leafParamsL, List.map_append] at a1 r1 ⊢
-          rw [a1, r1]
-        · simpa [ffReadHead] using a2 rfl
-      | _ => simp [Shape.wfL] at hw
+      | nil => rfl
+      | cons d ds =>
+        obtain ⟨x, xs⟩ := inner
+        simp only [ownLeaves, ownLeavesL, Bool.and_eq_true] at ho
+        simp only [Shape.noStream, Shape.noStreamL, Bool.and_eq_true] at hn
+        simp only [failfastL, List.headD_cons, ffReadHead]
+        exact inv1_read d ho.1 hn.1 x b h.1
 end
 
-/-- **C04 (wrapping keeps fail-fast).**  Building any graph of adapters over results leaves the `failfast` each
-result was constructed with unchanged (D14) — except for a `MultiTestResult` holding another `MultiTestResult`
-whose reachable leaves differ from its first target's setting (finding `nestedMultiFailfast`). -/
-theorem C04_failfast_kept_partial (s : Shape) (hw : s.wf = true) (ho : ownLeaves s = true) (hn : s.noStream = true)
-    (hm : mixedNested s = false) : (leaves s (init s)).map LeafSt.failfast = leafParams s :=
-  (kept_init s hw ho hn hm).1
+/- a result built without fail-fast under no fail-fast `ExtendedToOriginalDecorator` (`g`) has not stopped -/
+mutual
+def Inv2 (g : Bool) : (s : Shape) → St s → Prop
+  | .tt ff, st => ff = false → g = false → st.shouldStop = false
+  | .text ff, st => ff = false → g = false → st.tt.shouldStop = false
+  | .sink _, _ => True
+  | .tbt, _ => True
+  | .etod c, (_, inner) => Inv2 (g || ffRead (.etod c)) c inner
+  | .deco c, st => Inv2 g c st
+  | .tagger _ _ c, st => Inv2 g c st
+  | .tfr c, (_, inner) => Inv2 g c inner
+  | .multi cs, (_, inner) => Inv2L g cs inner
+  | .e2s _, _ => True
+def Inv2L (g : Bool) : (cs : List Shape) → StL cs → Prop
+  | [], _ => True
+  | c :: cs, (x, xs) => Inv2 g c x ∧ Inv2L g cs xs
+end
+
+mutual
+theorem inv2_true : ∀ (s : Shape) (st : St s), Inv2 true s st
+  | .sink _, _ => trivial
+  | .tbt, _ => trivial
+  | .tt _, _ => fun _ h => by cases h
+  | .text _, _ => fun _ h => by cases h
+  | .etod c, (_, inner) => by simp only [Inv2, Bool.true_or]; exact inv2_true c inner
+  | .deco c, st => inv2_true c st
+  | .tagger _ _ c, st => inv2_true c st
+  | .tfr c, (_, inner) => inv2_true c inner
+  | .e2s _, _ => trivial
+  | .multi cs, (_, inner) => inv2L_true cs inner
+theorem inv2L_true : ∀ (ss : List Shape) (st : StL ss), Inv2L true ss st
+  | [], _ => trivial
+  | s :: ss, (x, xs) => ⟨inv2_true s x, inv2L_true ss xs⟩
+end
+
+def quietSF (c : Call) : Bool := noSF c && c != .stop
+
+theorem tt_inv2 (ff : Bool) (st : TT) (c : Call) (hc : quietSF c = true) (hf : st.failfast = ff)
+    (h : ff = false → st.shouldStop = false) : ff = false → (ttStep st c).shouldStop = false := by
+  intro h0
+  have h1 := h h0
+  rw [h0] at hf
+  cases c with
+  | add k t a => cases k <;> simp [ttStep, h1, hf, Call.logged]
+  | stop => simp [quietSF] at hc
+  | _ => simp [ttStep, h1, Call.logged, TT.reset]
+
+mutual
+theorem inv2_steps : ∀ (s : Shape), ownLeaves s = true → s.noStream = true → ∀ (cs : List Call),
+    (∀ x ∈ cs, quietSF x = true) → ∀ (st : St s) (b g : Bool), Inv1 b s st → Inv2 g s st →
+    Inv2 g s (cs.foldl (step s) st)
+  | _, _, _, [], _, _, _, _, _, h => h
+  | s, ho, hn, c :: cs, hc, st, b, g, h1, h2 => by
+      rw [List.foldl_cons]
+      have hcc := hc c List.mem_cons_self
+      have hsf : noSF c = true := by simp only [quietSF, Bool.and_eq_true] at hcc; exact hcc.1
+      have h1' := inv1_steps s ho hn [c] (by simpa using hsf) st b h1
+      exact inv2_steps s ho hn cs (fun x hx => hc x (List.mem_cons_of_mem _ hx)) _ _ g h1'
+        (inv2_step s ho hn c hcc st b g h1 h2)
+theorem inv2_step : ∀ (s : Shape), ownLeaves s = true → s.noStream = true → ∀ (c : Call), quietSF c = true →
+    ∀ (st : St s) (b g : Bool), Inv1 b s st → Inv2 g s st → Inv2 g s (step s st c)
+  | .sink _, ho, _, _, _, _, _, _, _, _ => by simp [ownLeaves] at ho
+  | .tbt, ho, _, _, _, _, _, _, _, _ => by simp [ownLeaves] at ho
+  | .tt ff, _, _, c, hc, st, b, g, h1, h2 => by
+      intro h0 hg
+      exact tt_inv2 ff st c hc h1.1 (fun h0 => h2 h0 hg) h0
+  | .text ff, _, _, c, hc, st, b, g, h1, h2 => by
+      intro h0 hg
+      have := tt_inv2 ff st.tt c hc h1.1 (fun h0 => h2 h0 hg) h0
+      cases c <;> simpa [step, textStep] using this
+  | .etod ch, ho, hn, c, hc, (own, inner), b, g, h1, h2 => by
+      have ho' : ownLeaves ch = true := by simpa [ownLeaves] using ho
+      have hn' : ch.noStream = true := by simpa [Shape.noStream] using hn
+      simp only [quietSF, Bool.and_eq_true, bne_iff_ne, ne_eq] at hc
+      show Inv2 (g || ffRead (.etod ch)) ch (step (.etod ch) (own, inner) c).2
+      cases hg : (g || ffRead (.etod ch))
+      · simp only [Bool.or_eq_false_iff] at hg
+        have hmainSF := main_noSF (caps ch) c hc.1
+        have hex := etodStep_exact ⟨caps ch, step ch, failfastOf ch⟩ own inner c hc.2 (by
+          intro _
+          have hi := inv1_steps ch ho' hn' _ hmainSF inner b h1.2
+          have hr := inv1_read ch ho' hn' _ _ hi
+          simp only [etodFailfast]
+          split
+          · rename_i hcf
+            rw [hr]
+            simpa [ffRead, hcf] using hg.2
+          · exact h1.1)
+        have h2' : (step (.etod ch) (own, inner) c).2 = (etodMain (caps ch) c).foldl (step ch) inner := hex
+        rw [h2']
+        have h2g : Inv2 false ch inner := by
+          have := h2; simp only [Inv2, hg.1, hg.2, Bool.or_self] at this; exact this
+        refine inv2_steps ch ho' hn' _ ?_ inner b false h1.2 h2g
+        intro x hx
+        simp only [quietSF, Bool.and_eq_true, bne_iff_ne, ne_eq]
+        exact ⟨hmainSF x hx, main_noStop _ c hc.2 x hx⟩
+      · exact inv2_true ch _
+  | .deco ch, ho, hn, c, hc, st, b, g, h1, h2 => by
+      have := inv2_step ch (by simpa [ownLeaves] using ho) (by simpa [Shape.noStream] using hn) c hc st b g h1 h2
+      show Inv2 g ch (step (.deco ch) st c)
+      cases c <;> first | exact this | exact h2
+  | .tagger n t ch, ho, hn, c, hc, st, b, g, h1, h2 => by
+      have ho' : ownLeaves ch = true := by simpa [ownLeaves] using ho
+      have hn' : ch.noStream = true := by simpa [Shape.noStream] using hn
+      have := inv2_step ch ho' hn' c hc st b g h1 h2
+      show Inv2 g ch (step (.tagger n t ch) st c)
+      cases c with
+      | startTest x => exact inv2_steps ch ho' hn' [.startTest x, .tags n t] (by simp [quietSF, noSF]) st b g h1 h2
+      | done => exact h2
+      | setFailfast x => exact h2
+      | _ => exact this
+  | .tfr ch, ho, hn, c, hc, (own, inner), b, g, h1, h2 => by
+      have ho' : ownLeaves ch = true := by simpa [ownLeaves] using ho
+      have hn' : ch.noStream = true := by simpa [Shape.noStream] using hn
+      show Inv2 g ch (step (.tfr ch) (own, inner) c).2
+      have one : ∀ c', quietSF c' = true → Inv2 g ch (step ch inner c') :=
+        fun c' h' => inv2_step ch ho' hn' c' h' inner b g h1.2 h2
+      cases c with
+      | add k t a =>
+        refine inv2_steps ch ho' hn' _ ?_ inner b g h1.2 h2
+        intro x hx
+        simp only [quietSF, Bool.and_eq_true, bne_iff_ne, ne_eq]
+        exact ⟨tfrBlock_noSF own k t a x hx, tfrBlock_noStop own k t a x hx⟩
+      | startTestRun => exact one _ rfl
+      | stopTestRun => exact one _ rfl
+      | stop => simp [quietSF] at hc
+      | done => exact one _ rfl
+      | _ => exact h2
+  | .multi ss, ho, hn, c, hc, (own, inner), b, g, h1, h2 => by
+      show Inv2L g ss (step (.multi ss) (own, inner) c).2
+      have := inv2L_step ss (by simpa [ownLeaves] using ho) (by simpa [Shape.noStream] using hn) c hc inner b g h1 h2
+      cases c with
+      | progress => exact h2
+      | _ => exact this
+  | .e2s _, _, hn, _, _, _, _, _, _, _ => by simp [Shape.noStream] at hn
+theorem inv2L_step : ∀ (ss : List Shape), ownLeavesL ss = true → Shape.noStreamL ss = true → ∀ (c : Call),
+    quietSF c = true → ∀ (st : StL ss) (b g : Bool), Inv1L b ss st → Inv2L g ss st → Inv2L g ss (stepL ss st c)
+  | [], _, _, _, _, _, _, _, _, _ => trivial
+  | s :: ss, ho, hn, c, hc, (x, xs), b, g, h1, h2 => by
+      simp only [ownLeavesL, Bool.and_eq_true] at ho
+      simp only [Shape.noStreamL, Bool.and_eq_true] at hn
+      exact ⟨inv2_step s ho.1 hn.1 c hc x b g h1.1 h2.1, inv2L_step ss ho.2 hn.2 c hc xs b g h1.2 h2.2⟩
+end
+
+mutual
+theorem inv1_init : ∀ (s : Shape), Inv1 false s (init s)
+  | .sink _ => trivial
+  | .tbt => trivial
+  | .tt _ => ⟨rfl, fun h => by cases h⟩
+  | .text _ => ⟨rfl, fun h => by cases h⟩
+  | .etod c => ⟨rfl, inv1_init c⟩
+  | .deco c => inv1_init c
+  | .tagger _ _ c => inv1_init c
+  | .tfr c => ⟨rfl, inv1_init c⟩
+  | .e2s _ => trivial
+  | .multi cs => inv1L_init cs
+theorem inv1L_init : ∀ (ss : List Shape), Inv1L false ss (initL ss)
+  | [] => trivial
+  | s :: ss => ⟨inv1_init s, inv1L_init ss⟩
+end
+
+mutual
+theorem inv2_init : ∀ (s : Shape) (g : Bool), Inv2 g s (init s)
+  | .sink _, _ => trivial
+  | .tbt, _ => trivial
+  | .tt _, _ => fun _ _ => rfl
+  | .text _, _ => fun _ _ => rfl
+  | .etod c, g => inv2_init c _
+  | .deco c, g => inv2_init c g
+  | .tagger _ _ c, g => inv2_init c g
+  | .tfr c, g => inv2_init c g
+  | .e2s _, _ => trivial
+  | .multi cs, g => inv2L_init cs g
+theorem inv2L_init : ∀ (ss : List Shape) (g : Bool), Inv2L g ss (initL ss)
+  | [], _ => trivial
+  | s :: ss, g => ⟨inv2_init s g, inv2L_init ss g⟩
+end
+
+mutual
+theorem inv1_kept : ∀ (s : Shape), ownLeaves s = true → s.noStream = true → ∀ (st : St s) (b : Bool),
+    Inv1 b s st → (leaves s st).map LeafSt.failfast = leafParams s
+  | .sink _, ho, _, _, _, _ => by simp [ownLeaves] at ho
+  | .tbt, ho, _, _, _, _ => by simp [ownLeaves] at ho
+  | .tt ff, _, _, st, b, h => by simp [leaves, LeafSt.failfast, leafParams, h.1]
+  | .text ff, _, _, st, b, h => by simp [leaves, LeafSt.failfast, leafParams, h.1]
+  | .etod c, ho, hn, (_, inner), b, h =>
+      inv1_kept c (by simpa [ownLeaves] using ho) (by simpa [Shape.noStream] using hn) inner b h.2
+  | .deco c, ho, hn, st, b, h => inv1_kept c (by simpa [ownLeaves] using ho) (by simpa [Shape.noStream] using hn) st b h
+  | .tagger _ _ c, ho, hn, st, b, h =>
+      inv1_kept c (by simpa [ownLeaves] using ho) (by simpa [Shape.noStream] using hn) st b h
+  | .tfr c, ho, hn, (_, inner), b, h =>
+      inv1_kept c (by simpa [ownLeaves] using ho) (by simpa [Shape.noStream] using hn) inner b h.2
+  | .e2s _, _, hn, _, _, _ => by simp [Shape.noStream] at hn
+  | .multi cs, ho, hn, (_, inner), b, h =>
+      inv1L_kept cs (by simpa [ownLeaves] using ho) (by simpa [Shape.noStream] using hn) inner b h
+theorem inv1L_kept : ∀ (ss : List Shape), ownLeavesL ss = true → Shape.noStreamL ss = true → ∀ (st : StL ss) (b : Bool),
+    Inv1L b ss st → (leavesL ss st).map LeafSt.failfast = leafParamsL ss
+  | [], _, _, _, _, _ => rfl
+  | s :: ss, ho, hn, (x, xs), b, h => by
+      simp only [ownLeavesL, Bool.and_eq_true] at ho
+      simp only [Shape.noStreamL, Bool.and_eq_true] at hn
+      simp only [leavesL, leafParamsL, List.map_append, inv1_kept s ho.1 hn.1 x b h.1, inv1L_kept ss ho.2 hn.2 xs b h.2]
+end
+
+theorem zipAll3_append (p : Bool → Bool → Bool → Bool) : ∀ (a1 b1 c1 a2 b2 c2 : List Bool),
+    zipAll3 p a1 b1 c1 = true → zipAll3 p a2 b2 c2 = true → zipAll3 p (a1 ++ a2) (b1 ++ b2) (c1 ++ c2) = true
+  | [], [], [], _, _, _, _, h => by simpa using h
+  | x :: a, y :: b, z :: c, _, _, _, h1, h2 => by
+      simp only [zipAll3, Bool.and_eq_true, List.cons_append] at h1 ⊢
+      exact ⟨h1.1, zipAll3_append p a b c _ _ _ h1.2 h2⟩
+  | [], [], _ :: _, _, _, _, h, _ => by simp [zipAll3] at h
+  | [], _ :: _, _, _, _, _, h, _ => by simp [zipAll3] at h
+  | _ :: _, [], _, _, _, _, h, _ => by simp [zipAll3] at h
+  | _ :: _, _ :: _, [], _, _, _, h, _ => by simp [zipAll3] at h
+
+mutual
+theorem inv_rule : ∀ (s : Shape), ownLeaves s = true → s.noStream = true → ∀ (st : St s) (b g : Bool),
+    Inv1 b s st → Inv2 g s st →
+    zipAll3 (leafRule b) ((leaves s st).map LeafSt.shouldStop) (leafParams s) (guards g s) = true
+  | .sink _, ho, _, _, _, _, _, _ => by simp [ownLeaves] at ho
+  | .tbt, ho, _, _, _, _, _, _ => by simp [ownLeaves] at ho
+  | .tt ff, _, _, st, b, g, h1, h2 => by
+      simp only [leaves, List.map, LeafSt.shouldStop, leafParams, guards, zipAll3, leafRule, Bool.and_true]
+      simp only [Inv1] at h1
+      simp only [Inv2] at h2
+      cases hs : st.shouldStop <;> cases ff <;> cases b <;> cases g <;> simp_all
+  | .text ff, _, _, st, b, g, h1, h2 => by
+      simp only [leaves, List.map, LeafSt.shouldStop, leafParams, guards, zipAll3, leafRule, Bool.and_true]
+      simp only [Inv1] at h1
+      simp only [Inv2] at h2
+      cases hs : st.tt.shouldStop <;> cases ff <;> cases b <;> cases g <;> simp_all
+  | .etod c, ho, hn, (_, inner), b, g, h1, h2 =>
+      inv_rule c (by simpa [ownLeaves] using ho) (by simpa [Shape.noStream] using hn) inner b _ h1.2 h2
+  | .deco c, ho, hn, st, b, g, h1, h2 =>
+      inv_rule c (by simpa [ownLeaves] using ho) (by simpa [Shape.noStream] using hn) st b g h1 h2
+  | .tagger _ _ c, ho, hn, st, b, g, h1, h2 =>
+      inv_rule c (by simpa [ownLeaves] using ho) (by simpa [Shape.noStream] using hn) st b g h1 h2
+  | .tfr c, ho, hn, (_, inner), b, g, h1, h2 =>
+      inv_rule c (by simpa [ownLeaves] using ho) (by simpa [Shape.noStream] using hn) inner b g h1.2 h2
+  | .e2s _, _, hn, _, _, _, _, _ => by simp [Shape.noStream] at hn
+  | .multi cs, ho, hn, (_, inner), b, g, h1, h2 =>
+      invL_rule cs (by simpa [ownLeaves] using ho) (by simpa [Shape.noStream] using hn) inner b g h1 h2
+theorem invL_rule : ∀ (ss : List Shape), ownLeavesL ss = true → Shape.noStreamL ss = true → ∀ (st : StL ss) (b g : Bool),
+    Inv1L b ss st → Inv2L g ss st →
+    zipAll3 (leafRule b) ((leavesL ss st).map LeafSt.shouldStop) (leafParamsL ss) (guardsL g ss) = true
+  | [], _, _, _, _, _, _, _ => rfl
+  | s :: ss, ho, hn, (x, xs), b, g, h1, h2 => by
+      simp only [ownLeavesL, Bool.and_eq_true] at ho
+      simp only [Shape.noStreamL, Bool.and_eq_true] at hn
+      simp only [leavesL, leafParamsL, guardsL, List.map_append]
+      exact zipAll3_append _ _ _ _ _ _ _ (inv_rule s ho.1 hn.1 x b g h1.1 h2.1) (invL_rule ss ho.2 hn.2 xs b g h1.2 h2.2)
+end
+
+theorem upd_eq (b : Bool) (c : Call) :
+    (match c with | .startTestRun => false | .add k _ _ => b || Kind.bad k | _ => b) = upd b c := by
+  cases c <;> rfl
+
+/-- every result by itself, along a whole history without `stop()` and without assignments of `failfast` -/
+theorem leafStops_states (s : Shape) (ho : ownLeaves s = true) (hn : s.noStream = true) :
+    ∀ (h : List Call), (∀ x ∈ h, quietSF x = true) → ∀ (st : St s) (b : Bool), Inv1 b s st → Inv2 false s st →
+    leafStops (leafParams s) (guards false s) b h ((states s st h).map (observe s)) = true
+  | [], _, _, _, _, _ => rfl
+  | c :: h, hq, st, b, h1, h2 => by
+      have hcc := hq c List.mem_cons_self
+      have hsf : noSF c = true := by simp only [quietSF, Bool.and_eq_true] at hcc; exact hcc.1
+      have h1' : Inv1 (upd b c) s (step s st c) := by
+        have := inv1_steps s ho hn [c] (by simpa using hsf) st b h1; simpa using this
+      have h2' := inv2_step s ho hn c hcc st b false h1 h2
+      simp only [states, List.map_cons, leafStops, upd_eq, Bool.and_eq_true]
+      exact ⟨inv_rule s ho hn _ _ _ h1' h2',
+        leafStops_states s ho hn h (fun x hx => hq x (List.mem_cons_of_mem _ hx)) _ _ h1' h2'⟩
+
+/-- **C04 (every result by itself).**  For every graph over `TestResult` / `TextTestResult` leaves and every history
+without `stop()` and without assignments of `failfast` through wrappers: after every call, a result built with
+`failfast=True` has `shouldStop` set whenever an error / failure / unexpected success was reported since the last
+`startTestRun`; a result built without it, under no `ExtendedToOriginalDecorator` that reads
+`failfast` as true, never has — whatever wrappers sit above it, and whatever `startTestRun`s they pass on. -/
+theorem C04_leaf_stops (s : Shape) (ho : ownLeaves s = true) (hn : s.noStream = true) (h : List Call)
+    (hq : ∀ x ∈ h, quietSF x = true) :
+    leafStops (leafParams s) (guards false s) false h ((states s (init s) h).map (observe s)) = true :=
+  leafStops_states s ho hn h hq (init s) false (inv1_init s) (inv2_init s false)
+
+/-- **C04 (fail-fast survives).**  Without assignments through wrappers every result keeps, after every call of
+every history (any number of `startTestRun`s on any wrapper), the `failfast` it was built with. -/
+theorem C04_leaf_failfast_kept (s : Shape) (ho : ownLeaves s = true) (hn : s.noStream = true) :
+    ∀ (h : List Call), (∀ x ∈ h, noSF x = true) → ∀ (st : St s) (b : Bool), Inv1 b s st →
+    ∀ o ∈ (states s st h).map (observe s), o.leafFF = leafParams s
+  | [], _, _, _, _ => by intro o ho'; simp [states] at ho'
+  | c :: h, hq, st, b, h1 => by
+      have h1' : Inv1 (upd b c) s (step s st c) := by
+        have := inv1_steps s ho hn [c] (by simpa using hq c List.mem_cons_self) st b h1; simpa using this
+      intro o ho'
+      simp only [states, List.map_cons, List.mem_cons] at ho'
+      rcases ho' with rfl | ho'
+      · exact inv1_kept s ho hn _ _ h1'
+      · exact C04_leaf_failfast_kept s ho hn h (fun x hx => hq x (List.mem_cons_of_mem _ hx)) _ _ h1' o ho'
 
 /-! ## the proved clauses of the executable specification hold of the model -/
 theorem obs_map (s : Shape) (st : St s) (h : List Call) (f : Obs → α) :
@@ -1906,20 +2129,19 @@ theorem ffStops_tfr (ch : Shape) : ∀ (h : List Call) (st : St (.tfr ch)),
       refine ⟨.inl ?_, ffStops_tfr ch h _ hh.2 hf'⟩
       simp [readFF, caps, failfastOf, hf0]
 
-/-- **Headline (partial).**  Full statement: `∀ i, i.shape.wf → ¬ tfrOwnFailfastDirect i → ¬ nestedMultiFailfast i →
-Spec.C04.holds i (model i) = true`.  Proved here for every input whose graph has no stream pipeline
+/-- **Headline (partial).**  Full statement: `∀ i, i.shape.wf → ¬ tfrOwnFailfastDirect i → Spec.C04.holds i (model i) = true`.  Proved here for every input whose graph has no stream pipeline
 (`ExtendedToStreamDecorator` + `StreamFailFast` is checked by the correspondence only) and no `TextTestResult`
-behind a `ThreadsafeForwardingResult`, outside the two known-finding classes: all eight clauses. -/
+behind a `ThreadsafeForwardingResult`, outside the known-finding class `tfrOwnFailfastDirect`: all ten clauses. -/
 theorem holds_model_partial (i : Input) (hw : i.shape.wf = true) (hn : i.shape.noStream = true)
     (ht : i.shape.hasTfr = false ∨ hasText i.shape = false) (hc : tfrOwnFailfastDirect i = false)
-    (hm : nestedMultiFailfast i = false) : holds i (model i) = true := by
+    : holds i (model i) = true := by
   simp only [holds, clauses, List.all_cons, List.all_nil, Bool.and_true, Bool.and_eq_true]
   have scope : inScope i = true → i.hist.all Call.ok = true ∧ ownLeaves i.shape = true ∧
       ((hasText i.shape || Spec.C17.Shape.hasE2s i.shape) = false ∨ i.hist.head? = some .startTestRun) := by
     intro h
     simp only [inScope, Bool.and_eq_true, Bool.or_eq_true, Bool.not_eq_true', beq_iff_eq] at h
     exact ⟨h.1.1, h.1.2, h.2⟩
-  refine ⟨?_, ?_, ?_, ?_, ?_, ?_, ?_, ?_⟩
+  refine ⟨?_, ?_, ?_, ?_, ?_, ?_, ?_, ?_, ?_, ?_⟩
   · -- verdict
     cases hs : inScope i
     · simp [cVerdict, hs]
@@ -1957,7 +2179,7 @@ theorem holds_model_partial (i : Input) (hw : i.shape.wf = true) (hn : i.shape.n
     · simp [cFailfastKept, hs]
     · obtain ⟨_, ho, _⟩ := scope hs
       simp only [cFailfastKept, hs, Bool.not_true, Bool.false_or, beq_iff_eq, model]
-      exact C04_failfast_kept_partial i.shape hw ho hn hm
+      exact C04_failfast_kept i.shape
   · -- fail-fast stops
     cases hs : inScope i
     · simp [cFailfastStops, hs]
@@ -1995,6 +2217,31 @@ theorem holds_model_partial (i : Input) (hw : i.shape.wf = true) (hn : i.shape.n
     · obtain ⟨_, ho, _⟩ := scope hs
       simp only [cStopReaches, hs, hn, Bool.and_self, Bool.not_true, Bool.false_or, model]
       exact stopReaches_states i.shape hw ho hn i.hist (init i.shape)
+  · -- every result keeps its fail-fast
+    cases hs : inScope i
+    · simp [cLeafKept, hs]
+    · obtain ⟨_, ho, _⟩ := scope hs
+      cases ha : noAssign i.hist
+      · simp [cLeafKept, ha]
+      · simp only [cLeafKept, hs, hn, ha, Bool.and_self, Bool.not_true, Bool.false_or, List.all_eq_true, beq_iff_eq, model]
+        refine C04_leaf_failfast_kept i.shape ho hn i.hist ?_ (init i.shape) false (inv1_init _)
+        intro x hx
+        have := List.all_eq_true.mp ha x hx
+        cases x <;> simp_all [noSF]
+  · -- every result stops by itself
+    cases hs : inScope i
+    · simp [cLeafStops, hs]
+    · obtain ⟨_, ho, _⟩ := scope hs
+      cases ha : noAssign i.hist
+      · simp [cLeafStops, ha]
+      · cases hst : i.hist.all (· != .stop)
+        · simp [cLeafStops, hst]
+        · simp only [cLeafStops, hs, hn, ha, hst, Bool.and_self, Bool.not_true, Bool.false_or, model]
+          refine C04_leaf_stops i.shape ho hn i.hist ?_
+          intro x hx
+          have h1 := List.all_eq_true.mp ha x hx
+          have h2 := List.all_eq_true.mp hst x hx
+          cases x <;> simp_all [quietSF, noSF]
   · -- exit status
     simp only [cExit, model]
     cases i.prog with
@@ -2014,13 +2261,13 @@ theorem C04_finding_tfr :
     tfrOwnFailfastDirect witnessTfr = true ∧ inScope witnessTfr = true ∧
     cFailfastStops witnessTfr (model witnessTfr) = false := by decide
 
-/-- finding `nestedMultiFailfast`: the outer `MultiTestResult` clears the `failfast` of the inner one's second target -/
-def witnessNested : Input :=
-  { shape := .multi [.etod (.multi [.etod (.tt false), .etod (.tt true)])], hist := [], prog := none }
-
-theorem C04_finding_nested :
-    nestedMultiFailfast witnessNested = true ∧ inScope witnessNested = true ∧
-    (model witnessNested).leafFF = [false, false] ∧ cFailfastKept witnessNested (model witnessNested) = false := by decide
+/-- nested `MultiTestResult`s with different `failfast` settings keep them (regression of the former finding
+`nestedMultiFailfast`), and the second target still stops the run -/
+example :
+    let i : Input := { shape := .multi [.etod (.multi [.etod (.tt false), .etod (.tt true)])],
+                       hist := [.startTestRun, .startTest 1, .add .error 1 (.exc .real), .stopTest 1], prog := none }
+    (model i).leafFF = [false, true] ∧ holds i (model i) = true ∧
+    (model i).obs.map (·.ss) = [false, false, true, true] := by decide
 
 /-- not vacuous: fail-fast set on one leaf before wrapping, a second run, `MultiTestResult` over a
 `ThreadsafeForwardingResult` and a `TextTestResult` -/
